@@ -773,7 +773,7 @@ static void randomScenario(Rng& rng, long len, long maxNodes)
     bool room = static_cast<long>(nodes.size()) < maxNodes;
     size_t c = rng.below(100);
     if (nodes.size() < 2 && rng.chance(3, 4)) c = rng.below(22);   // grow first
-    if (c >= 98 && !w.has(2) && nodes.size() < 3 && rng.chance(3, 4)) c = rng.below(56);
+    if (c >= 97 && !w.has(2) && nodes.size() < 3 && rng.chance(3, 4)) c = rng.below(56);
     // related pairs (a -> b listed by a), as graph ids and as objects of observer k
     std::vector<std::pair<long, long>> relIds, relObjs, relFree;
     for (long a : nodes)
@@ -898,7 +898,7 @@ static void randomScenario(Rng& rng, long len, long maxNodes)
       if (idxMode == 2 || (idxMode == 0 && rng.coin())) w.exec(Op("AddEdgeIndex", k, LV{eo}));
       else w.exec(Op("SetEdgeIndex", k, LV{eo, static_cast<long>(rng.below(IMAX))}));
     }
-    else if (c < 98)
+    else if (c < 97)
     {
       long a = anyObj(), b = anyObj();
       long eo = freshLabel(eobjs, base, k == 2 ? 50 : 1);
@@ -919,7 +919,7 @@ static void randomScenario(Rng& rng, long len, long maxNodes)
     else
     {
       if (!w.has(2)) w.exec(Op("Copy", 1, LV()));
-      else if (rng.coin()) w.exec(Op("Drop", 2, LV()));
+      else w.exec(Op("Drop", 2, LV()));
     }
   }
 }
